@@ -100,7 +100,7 @@ int main(void)
 	xstub_ctx xs;
 	const br_x509_class **xsp = &xs.vtable;
 #ifdef NATIVE_REPLAY
-	memset(&cctx, 0, sizeof cctx);
+	NATIVE_FILL(&cctx, sizeof cctx);
 #endif
 	xs.vtable = &xstub_vtable;
 	cctx.eng.x509ctx = xsp;
